@@ -12,7 +12,7 @@ import (
 
 type genState struct {
 	g    *vh.Gen
-	adds [20]int
+	adds [24]int
 	ntok int
 }
 
@@ -28,6 +28,18 @@ func (s *genState) afterReopen() []string {
 	for mb := 3; mb < 7; mb++ {
 		if s.adds[mb] == 0 {
 			fresh = append(fresh, mb)
+		}
+	}
+	// hash neighbours: a NEW mailbox below a first-level directory that already holds an old one (0/1 and 2; 20, 21, 22)
+	for _, grp := range [][]int{{0, 1, 2}, {20, 21, 22}} {
+		old := 0
+		for _, mb := range grp {
+			old += s.adds[mb]
+		}
+		for _, mb := range grp {
+			if old > 0 && s.adds[mb] == 0 && (mb != 1 || s.adds[0] == 0) {
+				fresh = append(fresh, mb, mb)
+			}
 		}
 	}
 	if len(fresh) == 0 || g.Chance(0.3) {
@@ -129,6 +141,21 @@ func gen(g *vh.Gen) {
 	emit(0, []string{a(0, 1), a(0, 2), y(0, 3), a(3, 4), "X", y(5, 5), "t", "v", "X", "v"})
 	emit(0, []string{a(0, 1), a(2, 2), "R", y(6, 3), "t", "v", "R", "t"})
 	emit(2, []string{a(0, 1), y(3, 2), "t", "v", "R", "v"})
+	// HASH NEIGHBOURHOOD: lifetime 1 delivers to one name, lifetime 2 delivers to a NEW mailbox whose directory shares the
+	// first-level (3 hex) directory with it but not the second-level one, before any walk; then walk, retention scan,
+	// walk, stop, walk (pool 0/1 and 2; the triple 20, 21, 22)
+	for i, pr := range [][]int{{0, 2}, {2, 0}, {2, 1}, {20, 21}, {21, 22}, {22, 20}, {20, 22, 21}, {0, 1, 2}} {
+		x, yv := pr[0], pr[len(pr)-1]
+		stop := []string{"R", "X"}[i%2]
+		ops := []string{a(x, 1), y(x, 2)}
+		if len(pr) == 3 {
+			ops = append(ops, a(pr[1], 3))
+		}
+		ops = append(ops, stop, y(yv, 4), "v", "t", "v", stop, "v", a(x, 5), "v")
+		emit(0, ops)
+	}
+	emit(0, []string{a(20, 1), "R", a(21, 2), "t", "R", "v", a(22, 3), "v"})
+	emit(2, []string{a(21, 1), a(21, 2), a(21, 3), "X", y(22, 4), y(20, 5), "v", "r.21.2", "v", "R", "t", "v"})
 	// the same across the layouts of the storage directory (symlinked path / mail directory / hash buckets, odd paths)
 	for _, l := range layouts {
 		lay = l
@@ -233,7 +260,7 @@ func gen(g *vh.Gen) {
 	for i := 0; i < g.N(200, 5000); i++ {
 		s := &genState{g: g}
 		cap := []int{0, 0, 1, 2, 3}[g.Intn(5)]
-		mbs := [][]int{{0}, {0, 1}, {0, 2, 3}, {0, 1, 2, 3}, {7, 8, 9}, {9, 10, 11, 12, 0}, {13, 14, 15, 16}, {17, 18, 19, 8}}[g.Intn(8)]
+		mbs := [][]int{{0}, {0, 1}, {0, 2, 3}, {0, 1, 2, 3}, {7, 8, 9}, {9, 10, 11, 12, 0}, {13, 14, 15, 16}, {17, 18, 19, 8}, {20, 21, 22}, {0, 2, 20, 22}}[g.Intn(10)]
 		var ops []string
 		for j, n := 0, 2+g.Intn(9); j < n; j++ {
 			if g.Chance(0.25) {
@@ -256,7 +283,7 @@ func gen(g *vh.Gen) {
 	for i := 0; i < g.N(40, 1000); i++ {
 		s := &genState{g: g}
 		cap := []int{0, 0, 0, 2, 3}[g.Intn(5)]
-		mbs := [][]int{{0}, {0, 1}, {0, 1, 2, 3}, {7, 8, 9}, {12, 13, 14, 16}, {15, 17, 18, 19}}[g.Intn(6)]
+		mbs := [][]int{{0}, {0, 1}, {0, 1, 2, 3}, {7, 8, 9}, {12, 13, 14, 16}, {15, 17, 18, 19}, {20, 21, 22}, {2, 0, 21, 22}}[g.Intn(8)]
 		var ops []string
 		first := mbs[g.Intn(len(mbs))]
 		for seg, nseg := 0, 2+g.Intn(3); seg < nseg; seg++ {
